@@ -257,3 +257,20 @@ CHECKS["C06"] = {
         "found by MatchesSetwise. Assumes component matchers obey the protocol themselves." + TRUSTED
     ),
 }
+
+CHECKS["C17"] = {
+    "technique": "typestate over all method histories (abstract interpretation of each method, closure of the finite abstract state space) + alias analysis",
+    "text": (
+        "For each class that owns a TagContext chain, every protocol method is interpreted abstractly over the value of "
+        "self._tags (context depth and identity of the run-level context, None, unset) and ALL well-formed method "
+        "histories from the post-constructor state are explored to closure, including the start-less stopTest of "
+        "unittest 3.12.1: no transition dereferences None, stopTest never pops or replaces the run-level context, "
+        "startTest/stopTest are inverse, only startTestRun replaces the run level; the four implementations have "
+        "identical transition tables. TagContext copies rather than aliases its sets; ThreadsafeForwardingResult "
+        "routes tags to the per-test buffer iff a test is open; the stream decorator reports current_tags with the "
+        "final status; PlaceHolder applies and removes the same tags around its bracket. Exploring all histories is "
+        "exactly what the eight fixed three-step scenarios of TagsContract cannot do (found: start-less stopTest popped "
+        "the run-level context in four classes, fixed)."
+    ),
+    "note": "Tag sets as concrete values along long histories are not decided beyond add/remove symmetry." + TRUSTED,
+}
